@@ -870,6 +870,25 @@ func (ProofEngine) Execute(sc *core.Scenario, st *core.Stats) (*core.Violation, 
 						}
 					}
 				}
+				if err == nil {
+					// An accepted proof must not make any key of the universe appear absent (or with
+					// another value) contrary to the real contents: wherever the verified proof
+					// determines an answer, it is the true one.
+					if rp, perr := pv.VerifyProof(ctx, root.Hash, &mr.Proof); perr == nil {
+						for _, u := range keys {
+							pval, ppresent, determined := proofLookupLabels(rp, node.Key(u))
+							if !determined {
+								continue
+							}
+							tv, ok := contents[string(u)]
+							if ppresent != ok || (ok && !bytes.Equal(pval, tv)) {
+								v = pfViol("mutant-proof-fabricates", fmt.Sprintf("step %d: mutated proof (%v) verifies against the trusted root %s and determines (%x, present=%v) for key %x, but the tree holds (%x, present=%v)", step, op.Muts, root.Hash, pval, ppresent, u, tv, ok))
+								return
+							}
+						}
+						st.Inc("probe.accepted_mutant_determines_only_true_answers")
+					}
+				}
 			case "cget":
 				byz.begin(op.Muts)
 				got, err := client.Get(ctx, key)
